@@ -481,6 +481,84 @@ def r9(ctx, rep):
               "the formatter is called once with default parameters and options", file=c["file"], line=c["l"], fn=c["path"])
 
 
+STR_EDITS = {"trim", "trim_end", "trim_start", "trim_matches", "trim_end_matches", "trim_start_matches", "replace", "replacen", "to_lowercase", "to_uppercase", "to_ascii_lowercase",
+             "to_ascii_uppercase", "make_ascii_lowercase", "make_ascii_uppercase", "strip_prefix", "strip_suffix", "truncate", "lines", "split", "splitn", "rsplit", "split_whitespace",
+             "split_terminator", "retain", "pop", "remove", "drain", "replace_range", "escape_default", "escape_debug", "escape_unicode"}
+
+
+def r10(ctx, rep):
+    # the template of unary minus glues `-` to its operand: a negative literal child must be parenthesised, or the text reads `--5`, an SQL comment
+    import C02
+    rep.borrowed(C02.r4, ctx, "C08.R10", "a negative literal under unary minus is parenthesised (`-(-5)`, never `--5`)", only=r"^neg:hole")
+
+
+def r11(ctx, rep):
+    rep.rule("C08.R11", "text that becomes a string literal is taken as it is: no trimming, case mapping, replacing or splitting on the way into Literal::String", floor=5)
+    from alpha import Inliner
+    syn = ctx.syn
+    reviewed = {"translate_prql_date_format": "date_to_text: the PRQL format string is deliberately translated to the dialect's format language"}
+    n_sites = 0
+    for f in syn.fns:
+        if f["crate"] not in ("prqlc", "prqlc_parser") or "body" not in f or "/tests/" in f["file"] or f["file"].endswith("test.rs"):
+            continue
+        inl = None
+        for n in walk(f["body"]):
+            arg = None
+            if n.get("k") == "call" and last_seg(show(n["f"])) in ("String", "RawString") and "Literal" in show(n["f"]) and n["a"]:
+                arg, how = n["a"][0], "argument"
+            elif n.get("k") == "mcall" and n["m"] == "map" and len(n["a"]) == 1 and n["a"][0].get("k") == "path" and re.search(r"Literal::(Raw)?String$", n["a"][0]["p"]):
+                arg, how = n["r"], "mapped value"
+            if arg is None:
+                continue
+            n_sites += 1
+            inl = inl or Inliner(f, maxdepth=14, max_inline=4)
+            # the value with its local definitions followed
+            nodes = list(walk(arg))
+            for x in list(nodes):
+                if x.get("k") == "path" and "::" not in x["p"]:
+                    d = inl._init_of(x, x["p"])
+                    if d is not None:
+                        nodes += list(walk(d))
+            edits = sorted({x["m"] for x in nodes if x.get("k") == "mcall" and x["m"] in STR_EDITS})
+            calls_ = {last_seg(show(x["f"])) for x in nodes if x.get("k") == "call"} | {x["m"] for x in nodes if x.get("k") == "mcall"}
+            if calls_ & set(reviewed):
+                rep.ok(f"literal-text:{f['name']}:reviewed", {"reviewed": [reviewed[c_] for c_ in calls_ & set(reviewed)]})
+                continue
+            rep.check(not edits, f"literal-text:{f['name']}", f"the {how} of `{show(n['f']) if n.get('k') == 'call' else 'map(' + n['a'][0]['p'] + ')'}` in {f['path']} passes through {edits}: "
+                      "the string the database receives is then not the one the user wrote (a CSV cell `Ann ` with a trailing blank becomes 'Ann')", file=f["file"], line=n["l"], fn=f["path"])
+    rep.check(n_sites >= 5, "sites", f"expected >= 5 constructions of Literal::String / RawString, found {n_sites}")
+
+
+def r12(ctx, rep):
+    rep.rule("C08.R12", "quotes consumed while probing for the closing delimiter of a multi-quoted string are all given back", floor=2)
+    syn = ctx.syn
+    f = syn.fn("lexer::multi_quoted_string", crate="prqlc_parser")
+    # role anchors: the probing loop `while <n> < <open> { .. input.next(); <n> += 1 .. }` and the statements of the enclosing loop body
+    n_probe = 0
+    for lp in walk(f["body"]):
+        if lp.get("k") != "loop" or lp["body"].get("k") != "block":
+            continue
+        stmts = lp["body"]["s"]
+        probe = [i for i, st in enumerate(stmts) if st.get("k") == "while" and any(x.get("k") == "mcall" and x["m"] == "next" for x in walk(st))
+                 and any(x.get("k") == "bin" and x["op"] == "+=" for x in walk(st))]
+        if not probe:
+            continue
+        n_probe += 1
+        i = probe[0]
+        cnt = re.match(r"\(?(\w+) < ", show(stmts[i]["c"]))
+        cnt = cnt.group(1) if cnt else "close_count"
+        saves = [st["pat"]["n"] for st in stmts[:i] if st.get("k") == "local" and st["pat"].get("k") == "p_ident" and show(st.get("init")) == "input.save()"]
+        after = stmts[i + 1:]
+        rewinds = [x for st in after for x in walk(st) if x.get("k") == "mcall" and x["m"] == "rewind" and x["a"] and show(x["a"][0]) in saves]
+        # or: every quote that was read is pushed as content (a loop / repeat bounded by the counter)
+        gives_back = [x for st in after for x in walk(st) if (x.get("k") == "for" and cnt in show(x.get("e", x.get("iter", {})), maxdepth=6) and any(y.get("k") == "mcall" and y["m"] == "push" for y in walk(x)))
+                      or (x.get("k") == "mcall" and x["m"] == "extend" and re.search(r"take\(" + cnt + r"\b|repeat_n\([^,]+, " + cnt + r"\b", show(x, maxdepth=10)))]
+        rep.check(bool(rewinds) or bool(gives_back), "probe-restored", f"the loop of multi_quoted_string reads up to `open_count` quote characters to look for the closing delimiter; when fewer are found they are content: "
+                  f"the input must be rewound to the checkpoint saved before the probe (found saves {saves}) or all `{cnt}` quotes pushed; otherwise `\"\"\"say \"\"hi\"\" now\"\"\"` loses quotes",
+                  file=f["file"], line=stmts[i]["l"], fn=f["path"])
+    rep.check(n_probe >= 1, "probe-site", f"expected the delimiter-probing loop of multi_quoted_string, found {n_probe}", file=f["file"], line=f["l"], fn=f["path"])
+
+
 def run(ctx, rep):
-    for r in (r1, r2, r3, r4, r5, r6, r7, r8, r9):
+    for r in (r1, r2, r3, r4, r5, r6, r7, r8, r9, r10, r11, r12):
         rep.guard(r, ctx)
